@@ -541,3 +541,299 @@ func stmtsAfterKernel(rel, fn, rhsSuffix string, stops []string, leanName, param
 		panic(bail{fmt.Sprintf("%s: no assignment from …%s reachable from %s", rel, rhsSuffix, fn)})
 	}
 }
+
+// ---- whole-body decision chains (deepening round)
+
+// chainSpec tells decisionChain how to read a body: Conds maps a normalised condition source (or a prefix of an if-init + condition,
+// "init ; cond") to the Lean Bool that stands for it; ErrCalls maps a call-name suffix to the Lean Bool "this call failed" (for
+// `x, err := call(…)` followed by `if err != nil`, and for `if err := call(…); err != nil`); Rets maps a normalised prefix of a return
+// statement's results to the Lean value handed back; Skip lists prefixes of statements without influence on the decision.
+type chainSpec struct {
+	Conds    map[string]string
+	ErrCalls map[string]string
+	Rets     map[string]string
+	Skip     []string
+	From, To string // only the statements after the one starting with From / before the one starting with To (either may be "")
+	Fall     string // value when the body (or the slice) is left without a return
+}
+
+func hasPrefixAny(s string, ps []string) bool {
+	for _, p := range ps {
+		if strings.HasPrefix(s, p) {
+			return true
+		}
+	}
+	return false
+}
+
+func lookupPrefix(m map[string]string, s string) (string, bool) {
+	best, val := -1, ""
+	for k, v := range m {
+		if strings.HasPrefix(norm(s), norm(k)) && len(k) > best {
+			best, val = len(k), v
+		}
+	}
+	return val, best >= 0
+}
+
+func lookupSuffixCall(m map[string]string, e ast.Expr) (string, bool) {
+	c, ok := e.(*ast.CallExpr)
+	if !ok {
+		return "", false
+	}
+	name := src(c.Fun)
+	for k, v := range m {
+		if strings.HasSuffix(name, k) {
+			return v, true
+		}
+	}
+	return "", false
+}
+
+// decisionChain translates the (sliced) body of fn into nested if-then-else over the declared inputs. Every `if` must either be
+// declared in Conds / ErrCalls or have no return inside (then it is an effect and skipped); tagless switches are chains of ifs.
+func decisionChain(rel, fn, leanName, params, resultTy string, cs chainSpec) func() string {
+	return func() string {
+		fd := mustFunc(rel, fn)
+		list := fd.Body.List
+		if cs.From != "" || cs.To != "" {
+			lo, hi := 0, len(list)
+			for i, st := range list {
+				c := src(st)
+				if cs.From != "" && strings.HasPrefix(c, cs.From) {
+					lo = i + 1
+				}
+				if cs.To != "" && strings.HasPrefix(c, cs.To) && i >= lo {
+					hi = i
+					break
+				}
+			}
+			list = list[lo:hi]
+		}
+		pendingErr := ""
+		condOf := func(x *ast.IfStmt) (string, bool) {
+			key := src(x.Cond)
+			if x.Init != nil {
+				key = src(x.Init) + " ; " + key
+				if a, ok := x.Init.(*ast.AssignStmt); ok && len(a.Rhs) == 1 {
+					if v, ok := lookupSuffixCall(cs.ErrCalls, a.Rhs[0]); ok && norm(src(x.Cond)) == "err!=nil" {
+						return v, true
+					}
+				}
+			}
+			if v, ok := lookupPrefix(cs.Conds, key); ok {
+				return v, true
+			}
+			if x.Init == nil && pendingErr != "" {
+				switch norm(src(x.Cond)) {
+				case "err!=nil":
+					return pendingErr, true
+				case "err==nil":
+					return "(!" + pendingErr + ")", true
+				}
+			}
+			return "", false
+		}
+		retOf := func(r *ast.ReturnStmt) string {
+			var parts []string
+			for _, e := range r.Results {
+				parts = append(parts, src(e))
+			}
+			key := strings.Join(parts, ", ")
+			if v, ok := lookupPrefix(cs.Rets, key); ok {
+				return v
+			}
+			panic(bail{fmt.Sprintf("%s: %s: undeclared return `%s`", rel, fn, key)})
+		}
+		var walk func(list []ast.Stmt) string
+		walk = func(list []ast.Stmt) string {
+			for i, s := range list {
+				rest := list[i+1:]
+				switch x := s.(type) {
+				case *ast.ReturnStmt:
+					return retOf(x)
+				case *ast.IfStmt:
+					c, ok := condOf(x)
+					if !ok {
+						if hasReturn([]ast.Stmt{x}) {
+							panic(bail{fmt.Sprintf("%s: %s: undeclared test `%s` guards a return", rel, fn, src(x.Cond))})
+						}
+						continue // an effect only
+					}
+					pendingErr = ""
+					thenP := walk(append(append([]ast.Stmt{}, x.Body.List...), rest...))
+					elseP := walk(append(append([]ast.Stmt{}, elseList(x.Else)...), rest...))
+					if thenP == elseP {
+						return thenP
+					}
+					return "(if " + c + " then " + thenP + " else " + elseP + ")"
+				case *ast.SwitchStmt:
+					if x.Tag != nil || x.Init != nil {
+						if hasReturn([]ast.Stmt{x}) {
+							panic(bail{fmt.Sprintf("%s: %s: switch with a tag guards a return", rel, fn)})
+						}
+						continue
+					}
+					// a tagless switch is a chain of ifs
+					var chain ast.Stmt
+					var last *ast.IfStmt
+					var deflt []ast.Stmt
+					for _, cl := range x.Body.List {
+						cc := cl.(*ast.CaseClause)
+						if cc.List == nil {
+							deflt = cc.Body
+							continue
+						}
+						var disj ast.Expr
+						for _, e := range cc.List {
+							if disj == nil {
+								disj = e
+							} else {
+								disj = &ast.BinaryExpr{X: disj, Op: token.LOR, Y: e}
+							}
+						}
+						is := &ast.IfStmt{Cond: disj, Body: &ast.BlockStmt{List: cc.Body}}
+						if last == nil {
+							chain = is
+						} else {
+							last.Else = is
+						}
+						last = is
+					}
+					if last != nil && deflt != nil {
+						last.Else = &ast.BlockStmt{List: deflt}
+					}
+					if chain == nil {
+						continue
+					}
+					return walk(append([]ast.Stmt{chain}, rest...))
+				case *ast.AssignStmt:
+					if len(x.Rhs) == 1 {
+						if v, ok := lookupSuffixCall(cs.ErrCalls, x.Rhs[0]); ok {
+							pendingErr = v
+						}
+					}
+				case *ast.BlockStmt:
+					return walk(append(append([]ast.Stmt{}, x.List...), rest...))
+				default:
+					_ = x
+				}
+			}
+			if cs.Fall == "" {
+				panic(bail{fmt.Sprintf("%s: %s: a path leaves the body without a return", rel, fn)})
+			}
+			return cs.Fall
+		}
+		body := walk(list)
+		return fmt.Sprintf("/-- generated from %s func %s: the whole decision sequence of the body (tests in the code's order, what each return hands back) -/\ndef %s %s : %s :=\n  %s\n", rel, fn, leanName, params, resultTy, body)
+	}
+}
+
+// stmtOrder lists, in order, the top-level statements of fn (after From) whose source starts with one of the given prefixes — as those prefixes.
+func stmtOrder(rel, fn, from string, prefixes []string, leanName string) func() string {
+	return func() string {
+		fd := mustFunc(rel, fn)
+		var rows []string
+		on := from == ""
+		for _, st := range fd.Body.List {
+			c := src(st)
+			if !on {
+				on = strings.HasPrefix(c, from)
+				if !on {
+					continue
+				}
+			}
+			for _, p := range prefixes {
+				if strings.HasPrefix(norm(c), norm(p)) {
+					rows = append(rows, p)
+					break
+				}
+			}
+		}
+		return fmt.Sprintf("/-- generated from %s func %s: the order of these top-level statements -/\ndef %s : List String :=\n  %s\n", rel, fn, leanName, scanStrList(rows))
+	}
+}
+
+// workerDecision: what one round of the worker's inner loop (the `for` whose condition compares `.start` and `.end`) does, as a
+// decision tree over "the context is done" and "the request failed": 0 = the worker returns, 1 = it goes round again with the same
+// range, 2 = it hands the batch to the callback and advances. The request may be made in the loop or in a same-file helper.
+func workerDecision(rel, fn, deliverCall, leanName string) func() string {
+	return func() string {
+		fd := mustFunc(rel, fn)
+		var loop *ast.ForStmt
+		ast.Inspect(fd.Body, func(n ast.Node) bool {
+			if f, ok := n.(*ast.ForStmt); ok && f.Cond != nil && strings.Contains(src(f.Cond), ".start") && strings.Contains(src(f.Cond), ".end") {
+				loop = f
+			}
+			return true
+		})
+		if loop == nil {
+			panic(bail{fmt.Sprintf("%s: no loop over a range's start/end in %s", rel, fn)})
+		}
+		contains := func(n ast.Node, sub string) bool {
+			found := false
+			ast.Inspect(n, func(m ast.Node) bool {
+				if c, ok := m.(*ast.CallExpr); ok && strings.Contains(src(c.Fun), sub) {
+					found = true
+				}
+				return true
+			})
+			return found
+		}
+		errPending := false
+		var walk func(list []ast.Stmt, delivered bool) string
+		walk = func(list []ast.Stmt, delivered bool) string {
+			for i, s := range list {
+				rest := list[i+1:]
+				switch x := s.(type) {
+				case *ast.ReturnStmt:
+					return "0"
+				case *ast.BranchStmt:
+					if x.Tok == token.CONTINUE {
+						if delivered {
+							return "2"
+						}
+						return "1"
+					}
+					return "0"
+				case *ast.IfStmt:
+					cond := ""
+					c := norm(src(x.Cond))
+					isReq := x.Init != nil && (contains(x.Init, "Retry") || contains(x.Init, "GetRawEntries") || contains(x.Init, "getRawEntries"))
+					switch {
+					case strings.Contains(c, "ctx.Err()!=nil"):
+						cond = "ctxDone"
+					case c == "err!=nil" && (errPending || isReq):
+						cond = "reqFails"
+					case c == "err==nil" && (errPending || isReq):
+						cond = "(!reqFails)"
+					}
+					if cond == "" {
+						if hasReturn([]ast.Stmt{x}) || contains(x, deliverCall) {
+							panic(bail{fmt.Sprintf("%s: %s: undeclared test `%s` in the worker loop", rel, fn, src(x.Cond))})
+						}
+						continue // logging only
+					}
+					thenP := walk(append(append([]ast.Stmt{}, x.Body.List...), rest...), delivered)
+					elseP := walk(append(append([]ast.Stmt{}, elseList(x.Else)...), rest...), delivered)
+					if thenP == elseP {
+						return thenP
+					}
+					return "(if " + cond + " then " + thenP + " else " + elseP + ")"
+				default:
+					if a, ok := s.(*ast.AssignStmt); ok && len(a.Rhs) == 1 && (contains(a.Rhs[0], "Retry") || contains(a.Rhs[0], "GetRawEntries") || contains(a.Rhs[0], "getRawEntries")) {
+						errPending = true
+					}
+					if es, ok := s.(*ast.ExprStmt); ok && contains(es, deliverCall) {
+						delivered = true
+					}
+				}
+			}
+			if delivered {
+				return "2"
+			}
+			return "1"
+		}
+		return fmt.Sprintf("/-- generated from %s func %s: one round of the worker loop `for %s`: 0 return, 1 ask again for the same range, 2 deliver and advance -/\ndef %s (ctxDone reqFails : Bool) : Nat :=\n  %s\n", rel, fn, src(loop.Cond), leanName, walk(loop.Body.List, false))
+	}
+}
